@@ -72,6 +72,20 @@ def lifecycle_histories(rng, tier):
             calls = list(opens) + [use(k1, x, rng.choice("pu")), {"call": "open", "abi": "p", "dirfd": 3, "path": "a", "abs": False, "oflags": 0, "rd": True, "wr": False, "app": False}]
             hs.append({"id": "s%d" % n, "setup": setup, "calls": calls})
             n += 1
+    # live descriptors: the pre-open reports its path (any buffer length: no terminator, nothing beyond the length), file type
+    # and flags of every kind of descriptor, sync of descriptors with and without a native descriptor
+    for app in (False, True):
+        calls = [dict(opens[0], app=app), opens[1]]
+        for x in (3, 4, 5):
+            calls += [{"call": "fdstat", "abi": rng.choice("pu"), "fd": x}, {"call": "sync", "abi": rng.choice("pu"), "fd": x},
+                      {"call": "datasync", "abi": rng.choice("pu"), "fd": x}, {"call": "prestat", "abi": rng.choice("pu"), "fd": x}]
+        for ln in (4096, 0, 1, 5):
+            calls.append({"call": "prestatname", "abi": rng.choice("pu"), "fd": 3, "len": ln})
+        calls.append({"call": "prestatname", "abi": "p", "fd": 3, "len": "exact"})
+        calls.append({"call": "prestatname", "abi": "u", "fd": 3, "len": "exact-1"})
+        calls.append({"call": "prestatname", "abi": "u", "fd": 3, "len": "exact+1"})
+        hs.append({"id": "v%d" % n, "setup": setup, "calls": calls})
+        n += 1
     # a listed directory that disappears: listing it again from the start must not leave a released stream behind
     for gone in ("rmdir", "rename"):
         for tail in (["close"], ["readdir", "close"], ["readdir", "readdir", "close", "close"]):
